@@ -158,9 +158,12 @@ PROPS = {
    "text / stream, under every chunking, is delivered as a contract-conforming stream whose strings are well-formed UTF-8 and whose numbers are "
    "in the range of their event kind. Oracle: WF evaluated on every event stream any parser or Fold delivers."
    " PropsFold.C09 fold_ok_wf / fold_fault_wf_prefix: for every type of the universe goodT (C12) and every value of it, a fold that returns ok has delivered ONE contract-conforming "
-   "document (exact announced lengths incl. the struct rule), and under any fault index a prefix of it; custom folders are user code (counterexample FOpen).",
-   "Kernel-checked for the generic layer, the CBOR, UBJSON and JSON parsers, the adapters and Fold on the universe goodT.",
-   partial="Fold outside goodT (custom folders = user code, inline interface fields, recursive types): WF oracle on every fold op"),
+   "document (exact announced lengths incl. the struct rule), and under any fault index a prefix of it; custom folders are user code (counterexample FOpen)."
+   " PropsFoldCus.C09 fold_ok_wf_custom / fold_fault_wf_prefix_custom / fold_ok_wf_extends: the same two statements on the EXTENDED universe goodC / wtC of C12 (custom folders on either receiver, registered fold functions, "
+   "IsZeroers, in every position incl. inlined custom folders through the ExpectObjVisitor): the only assumption about user code is that the custom folder's OWN events are one conforming value (part of wtC; needed: FOpen, kernel-evaluated). "
+   "Op reuse-parse-f: one json.Parser over histories that include REFUSED documents — input accepted after a refusal must still be delivered as a conforming stream.",
+   "Kernel-checked for the generic layer, the CBOR, UBJSON and JSON parsers, the adapters and Fold on the universes goodT and goodC (custom folders whose own output conforms).",
+   partial="Fold outside goodC (custom folders that do not emit one conforming value = user code, inline interface fields, mutually recursive types): WF oracle on every fold op"),
  "C10": P("DESIGN.md 7 C10",
    "Lean 4 proof (native typed methods = expansion, same bytes and state; byte slices same value) + differential correspondence",
    "cbor_ext_same: step s x = execEvs s x.expand for every typed array (except byte slices), typed map and by-reference "
@@ -185,10 +188,13 @@ PROPS = {
    "self-referential and mutually recursive types with finite values, pointers, interfaces holding every dynamic type, "
    "nil vs empty containers, unsupported kinds (must be refused with an error, never a crash). Oracle independent of the "
    "mirrors: result ok and deeply equal to the original modulo nil = empty, omitted-when-empty / dropped fields zero.",
-   "Kernel-checked: the COMPOSED statement Fold-then-Unfold = identity on the direct path for scalars of every kind and width (bit-exact floats), []T, map[string]T under every iteration order, interface{} holding these, *T (PropsFu.C11 fold_unfold_scalar / _slice / _map / _iface_slice / _ptr, in the vocabulary of the op `fu`, no size bound); scalar round trip for all widths and values; the two halves for containers — fold side = documented rules on the universe goodT (C12 fold_agrees / fold_refuses: a type that cannot be handled is REFUSED, never a crash), unfold side = typed assignment for primitive slices / maps and the generic clause (C13), no panic on typed targets (C14) — and the codec legs (C01 round trips for all three formats); their composition over structs and pointers by mirror + correspondence (`fu`, four paths) + oracle.",
+   "Kernel-checked: the COMPOSED statement Fold-then-Unfold = identity on the direct path for scalars of every kind and width (bit-exact floats), []T, map[string]T under every iteration order, interface{} holding these, *T (PropsFu.C11 fold_unfold_scalar / _slice / _map / _iface_slice / _ptr, in the vocabulary of the op `fu`, no size bound); scalar round trip for all widths and values; the two halves for containers — fold side = documented rules on the universe goodT (C12 fold_agrees / fold_refuses: a type that cannot be handled is REFUSED, never a crash), unfold side = typed assignment for primitive slices / maps and the generic clause (C13), no panic on typed targets (C14) — and the codec legs (C01 round trips for all three formats); their composition over the remaining types by mirror + correspondence (`fu`, four paths) + oracle."
+   " PropsFuStruct.C11 / PropsFuStruct2.C11: the composed statement for STRUCT types — dropped / plain / OMITEMPTY members of scalar type (fold_unfold_struct_prim, fold_unfold_struct_omit; with the Unfold-side hypotheses DERIVED from the compiler: compile_struct_prim, "
+   "fold_unfold_struct_omit_total, unconditional instance fold_unfold_Om_total), NESTED and INLINED structs to any depth (fold_unfold_struct_nested, instance fold_unfold_Nest; type-level hypotheses #guard-checked), exact event lists (fold_struct_*_events). "
+   "PropsFuCbor.C11: the composed statement THROUGH THE CBOR PATH (Fold -> CBOR encoder -> bytes -> CBOR parser -> Unfolder) for scalars, []T, map[string]T, every value (fold_cbor_unfold_scalar / _slice / _map; side condition = lengths below 2^63, forced: huge_length_refused).",
    tb=["models: SF/Gotype/Fold.lean, SF/Gotype/Unfold.lean, codec mirrors; composition SF/Ops/Fu.lean; translation between the two type universes SF/Gotype/Translate.lean"],
    assumptions=GOTYPE_ASSUME,
-   partial="the composed statement for structs, nested containers, pointer chains and named types is not proved as ONE theorem (the halves are: C12 fold = rules, C13 typed assignment, C14 no panic, C01 codec legs); decided there by the oracle on generated types x values x four paths; *float32 holding a signalling NaN comes back quieted (reading: any NaN of the same width)"),
+   partial="the composed statement for struct members of container / pointer / interface type, nested containers, pointer chains, and the UBJSON / JSON paths is not proved as ONE theorem (the halves are: C12 fold = rules, C13 typed assignment, C14 no panic, C01 codec legs); the Unfold mirror trims tags with String.trimAscii, which keeps \\v and \\f where Go strips them (theorems carry TrimAgree; no menagerie tag contains them); decided there by the oracle on generated types x values x four paths; *float32 holding a signalling NaN comes back quieted (reading: any NaN of the same width)"),
  "C12": P("DESIGN.md 7 C12",
    "Lean 4 proof (the Fold mirror agrees with the independent Rules specification on a decidable universe of types x all their values, both directions; tag parser = documented tag grammar for every tag string) + differential correspondence of the Fold mirror + Rules as oracle",
    "fold_agrees / fold_agrees_inputs: for EVERY type of the universe goodT (all scalar kinds, interface{}, slices, arrays incl. typed-array fast paths, pointers, "
@@ -225,10 +231,11 @@ PROPS = {
    "[]T and map[string]T with T primitive (any old value in the target: slices are overwritten from the start, maps are merged into): whenever the specification makes a claim the "
    "mirror accepts and stores the specified value. PropsStruct.C13 object_into_struct_compiled / unfold_object_into_struct: the same for STRUCT targets whose flattened fields are of primitive, interface{} or struct "
    "type (inline / squash to any depth, nested structs, unknown keys of any shape swallowed without a trace, duplicate keys in stream order, numeric conversions; fields not mentioned untouched; the Unfolder exactly as before "
-   "SetTarget afterwards). Struct fields of slice / map / pointer type, containers of structs and user unfolders: mirror + correspondence + oracle (`assign`), op unf-userval.",
+   "SetTarget afterwards). PropsStructCont.C13 field_ptr_prim / field_slice_prim: the store lemma for struct fields of type *T and []T (T primitive, named or not; null, fresh cell per assignment, any announced length / element type, any old slice). "
+   "Struct fields of map type, containers of structs and user unfolders: mirror + correspondence + oracle (`assign`), op unf-userval.",
    tb=["model: SF/Gotype/Unfold.lean (mirror of gotype/unfold*.go), SF/Gotype/UTypes.lean, Conv.lean, Menagerie.lean; spec: SF/Gotype/UnfoldSpec.lean"],
    assumptions=GOTYPE_ASSUME,
-   partial="typed-assignment theorem for struct fields of slice / map / pointer type, containers of structs and nested typed containers not yet proved (safety there: C14 theorems; values: oracle `assign`)"),
+   partial="typed-assignment theorem for struct fields of map type (as stated false of the mirror's untyped value universe: an old map value may carry a foreign element-type tag; not a Go behaviour), containers of structs and nested typed containers not yet proved (safety there: C14 theorems; values: oracle `assign`)"),
  "C14": P("DESIGN.md 7 C14",
    "Lean 4 proof (pre-allocation bound for every announced length; Reset+SetTarget = fresh from any context) + regenerated SSA facts about allocation sites + differential correspondence over mismatches/abandon positions",
    "prealloc_bounded / prealloc_exact / typed_prealloc_le: an announced length allocates min(l,1024) elements for every l; "
